@@ -557,7 +557,62 @@ def r3_mod_tsc(L, repo):
                      _pick_structure, L, repo, pk, B, gs, ref, FG, loops)
     else:
         _pick_structure(L, repo, pk, B, gs, ref, FG, loops)
-    _generators(L, repo, ref)
+    if _generators_fold(L, repo, ref):
+        L.structural("C10.R3 length-tracking interpretation of the burst generators", _generators, L, repo, ref)
+    else:
+        _generators(L, repo, ref)
+
+
+def _generators_fold(L, repo, ref):
+    """gen_nb / gen_sb / gen_ab folded with every training sequence of the burst type handed in (random bits from a
+    deterministic oracle): the burst has 148 bits and carries the sequence exactly where pick() looks for it; without a
+    sequence the default is drawn from the sequences of the generator's own burst type.  -> False: does not fold"""
+    from consteval import Opaque, EnumMember
+    FR = rel("rand_burst_gen")
+    rm = repo.mod("rand_burst_gen")
+    rci = repo.need_class("rand_burst_gen", "RandBurstGen")
+    gs = repo.mod("gsm_shared")
+    tci = repo.need_class("gsm_shared", "TrainingSeqGMSK")
+    members = Ev(repo, gs).enum_members(tci)
+    rows = []
+    try:
+        for meth, bt in (("gen_nb", "NORMAL"), ("gen_sb", "SYNC"), ("gen_ab", "ACCESS")):
+            c4, g = repo.find_method(rci, meth)
+            if g is None:
+                raise AnalysisError("RandBurstGen.%s vanished" % meth)
+            start, ln = ref["offsets"][bt]["start"], ref["offsets"][bt]["len"]
+            mine = [m for m in members if str(m.attrs.get("bt")).endswith(bt)]
+            if not mine:
+                return False
+            for m in mine:
+                cnt = [0]
+
+                def rnd(a, cnt=cnt):
+                    cnt[0] += 1
+                    return (cnt[0] * 7 // 3) % 2
+                e = Ev(repo, rm, env={params(g)[1]: m}, self_cls=rci)
+                e.hooks = {"random.randint": rnd, "random.getrandbits": lambda a: 0}
+                r = e.run_block(g.body)
+                out = r[1] if isinstance(r, tuple) else None
+                seq = m.attrs.get("seq")
+                rows.append((meth, bt, m.name, (ref["burst_len"], list(seq) if seq is not None else None),
+                             (len(out) if hasattr(out, "__len__") else None, list(out[start:start + ln]) if hasattr(out, "__getitem__") else None)))
+            asked = []
+            e = Ev(repo, rm, env={params(g)[1]: None}, self_cls=rci)
+            e.hooks = {"random.randint": lambda a: 1, "self.get_rand_tsc": lambda a: (asked.append(a[0]), mine[0])[1]}
+            e.run_block(g.body)
+            rows.append((meth, bt, "<default>", [bt], [str(getattr(x, "name", x)).split(".")[-1] for x in asked]))
+    except (Unknown, Raised):
+        return False
+    L.unit(FR)
+    for meth, bt, nm, want, got in rows:
+        L.fn(FR, "RandBurstGen." + meth)
+        if nm == "<default>":
+            L.require("C10.R3", FR, "RandBurstGen." + meth, "default training sequence is drawn from the %s sequences" % bt, want, got)
+        else:
+            L.require("C10.R3", FR, "RandBurstGen." + meth, "%s burst generated with %s: 148 bits, the sequence where pick() looks for it" % (bt, nm), want, got)
+    L.floor("C10.R3", "generator / training sequence pairs folded", len(rows), 15)
+    return True
 
 
 def _pick_structure(L, repo, pk, B, gs, ref, FG, loops):
